@@ -12,7 +12,9 @@ ASSUME = [
     'backslash, new-line, non-ASCII',
 ]
 
-NASTY = ['plain', 'with "quotes"', 'back\\slash', 'trailing\\', 'new\nline', 'tab\there', 'é non-ascii ✓', '\\"', '', '"']
+NASTY = ['plain', 'with "quotes"', 'back\\slash', 'trailing\\', 'new\nline', 'tab\there', 'é non-ascii ✓', '\\"', '', '"',
+         # characters Python's str.splitlines() treats as line boundaries, all legal inside a TSDL string literal
+         'CARRIAGE\rRETURN', 'FORM\fFEED', 'VT\x0bTAB', 'LINE\u2028SEP', 'PARA\u2029SEP', 'NEL\x85X', 'FS\x1cGS\x1dRS\x1eEND']
 BASES = {'bin': 2, 'oct': 8, 'dec': 10, 'hex': 16, 'binary': 2, 'octal': 8, 'decimal': 10, 'hexadecimal': 16}
 
 
@@ -57,6 +59,14 @@ def decorate(text, rnd):
             e['log-level'] = rnd.choice([0, 0, 1, 7, 14, 'warning', None])
             if e['log-level'] is None:
                 del e['log-level']
+            # enumeration labels are TSDL string literals too
+            if rnd.random() < 0.4:
+                labels = [x for x in rnd.sample(NASTY, 3) if x != '']
+                pf = e.setdefault('payload-field-type', {'class': 'struct', 'members': []})
+                if isinstance(pf, dict) and isinstance(pf.get('members'), list):
+                    pf['members'].append({'nasty_labels': {'field-type': {
+                        'class': 'uenum', 'size': 8, 'mappings': {lab: ([i] if i % 2 == 0 else [[10 * i, 10 * i + 3]])
+                                                                   for i, lab in enumerate(labels)}}}})
     return gencfg.HEADER + yaml.safe_dump(cfg, sort_keys=False, default_flow_style=False, allow_unicode=True)
 
 
